@@ -211,6 +211,16 @@ def no_such_atom_contract(rows, extra, stack=False):
     if stack:
         a = as_stack(a)
     n = len(rows)
+    # no index at all is a legitimate request: every view answers it with an empty result
+    for fn, shape in ((struc.get_residue_starts_for, (0,)), (struc.get_residue_positions, (0,)), (struc.get_residue_masks, (0, n)),
+                      (struc.get_chain_starts_for, (0,)), (struc.get_chain_positions, (0,)), (struc.get_chain_masks, (0, n))):
+        for empty in (np.array([], dtype=int), []):
+            try:
+                got = np.asarray(fn(a, empty))
+            except Exception as e:
+                return f"{fn.__name__}(array of {n} atoms, no indices) raised {type(e).__name__}: {e}"
+            if got.shape != shape:
+                return f"{fn.__name__}(array of {n} atoms, no indices) has shape {got.shape}, expected {shape}"
     for bad in (n, n + extra, -1):
         for idx in ([bad], list(range(n)) + [bad], [bad] + list(range(n))):
             for fn in (struc.get_residue_starts_for, struc.get_residue_positions, struc.get_residue_masks,
